@@ -1076,8 +1076,9 @@ func (d *Decoder) decodeTypeParameter(valueJSON any, results typeDecodingResults
 	// Unmetered because decodeTypeParameter is metered in decodeTypeParameters and called nowhere else
 	// TODO: getOpt
 	var typeBound cadence.Type
+	// The type bound is optional: the encoder writes `null` for a type parameter without a bound
 	typeBoundObj, ok := obj[typeBoundKey]
-	if ok {
+	if ok && typeBoundObj != nil {
 		d.pushPath(propertyPathElement(typeBoundKey))
 		typeBound = d.decodeType(typeBoundObj, results)
 		d.popPath()
